@@ -430,7 +430,7 @@ def gen_lazy_case(rnd):
             expect.append(sym_value(taken))
     return {"ncats": 1, "nrows": 7, "best": [0, 0], "cells": cells, "runs": runs, "family": "lazy",
             "expect": expect, "what": "%s %s" % (kind, "then" if take_then else "else"),
-            "poison_arg": args.index(POISON)}
+            "poison_arg": args.index(POISON), "taken_arg": (args.index(T) if T in args else None)}
 
 
 def relayout(rnd, case):
@@ -528,7 +528,7 @@ def expected_cats(case):
 
 
 def strip_case(case):
-    return {k: case[k] for k in ("ncats", "nrows", "best", "cells", "runs", "family", "expect", "what", "how", "base", "poison_arg")
+    return {k: case[k] for k in ("ncats", "nrows", "best", "cells", "runs", "family", "expect", "what", "how", "base", "poison_arg", "taken_arg")
             if k in case}
 
 
@@ -645,18 +645,29 @@ def judge(cases, env, sink, hist):
                                  "run %d on a used interpreter object (mode %s) returns %s, a fresh interpreter returns %s"
                                  % (j, run_["mode"], hr, hf), dict(rj, got=hr, fresh=hf))
             # O4 / O5: model-free expectations
-            if c["family"] == "lazy" and masked not in (None, "-"):
+            if c["family"] == "lazy":
                 # the expectation presupposes that the conditional, as written in the source NOW, does
-                # not ask for the poisoned position (the regenerated strategy tells)
-                if str(c["poison_arg"]) in masked.split(","):
-                    hist["outcome"]["lazy-not-applicable"] = hist["outcome"].get("lazy-not-applicable", 0) + 1
+                # not ask for the poisoned position and asks for the other branch (the regenerated
+                # strategy tells); otherwise the case says nothing about laziness
+                if masked in (None, "-"):
+                    continue
+                asked_now = masked.split(",")
+                if str(c["poison_arg"]) in asked_now:
+                    bump("outcome", "lazy-not-applicable")
+                    continue
+                if hr == "THROW":
+                    sink.add_violation("lazy:%s" % run_["mode"],
+                                       "argument %d of the root is not asked for, yet its throwing sub-program was "
+                                       "evaluated (result THROW)" % c["poison_arg"], dict(rj, got=hr, asked=masked))
+                    continue
+                if c.get("taken_arg") is not None and str(c["taken_arg"]) not in asked_now:
                     continue
             if "expect" in c and hr != c["expect"][j]:
                 key = "feature" if c["family"] == "var" else "lazy"
                 sink.add_violation("%s:%s" % (key, run_["mode"]),
-                                 ("a variable program returns %s, the example's feature is %s" if key == "feature" else
-                                  "conditional with a known outcome and a throwing untaken branch returns %s, expected %s")
-                                 % (hr, c["expect"][j]), dict(rj, got=hr, expected=c["expect"][j]))
+                                   ("a variable program returns %s, the example's feature is %s" if key == "feature" else
+                                    "conditional returns %s, the branch it asks for evaluates to %s")
+                                   % (hr, c["expect"][j]), dict(rj, got=hr, expected=c["expect"][j]))
         # O3: same active tree, other layout (impl vs impl)
         if "base" in c and parsed[c["base"]] is not None:
             b = cases[c["base"]]
@@ -745,6 +756,11 @@ def run(ck):
                         " -- Gen/Prims.v kept as hand-written model, tie = correspondence only")
     res = vv.prove("Properties_C01", vv.FLOCQ_AXIOMS)
     ck.add_proof(res)
+    if ck.thorough and not res["failure"]:
+        ok, axioms, tail = vv.coqchk("Properties_C01")
+        ck.coverage["coqchk"] = {"ok": ok, "axioms": axioms}
+        if not ok:
+            ck.add_unshown("coqchk", "Properties_C01", tail)
     ck.trusted += ["translate/cxx_mini.py + coq/Cxx/CxxMini.v (primitive bodies -> strategies, regenerated each run)",
                    "coq/Mep/Genome.v (shared genome / tree_of definitions), coq/Interp/Strategy.v",
                    "extraction: ExtrOcamlBasic only, no Extract Constant; ocaml/interp_driver.ml + zutil.ml "
